@@ -208,7 +208,8 @@ Stage2(D, s, X, Y) ==
 ValidZ(t, Z) == Z \subseteq t.YT /\ Cardinality(Z) = t.r /\ HighClosed(Z, t.YT, t.pri)
 
 Stage3(t, Z) ==
-  LET zs == [i \in 1..Cardinality(Z) |-> LET c == AscSeq(Z, t.pri)[i] IN <<c, TaskOf(t.oent[c])[1]>>]
+  LET ZT == Z \cap t.YT      \* (ValidZ demands Z \subseteq YT; total anyway)
+      zs == [i \in 1..Cardinality(ZT) |-> LET c == AscSeq(ZT, t.pri)[i] IN <<c, TaskOf(t.oent[c])[1]>>]
   IN [L |-> t.L, G |-> t.G, Q |-> PushSeq(t.Q, t.L, t.head \o zs, t.raw), ov |-> t.ov]
 
 (* ---- NotifyNewBlocks (after the block was stored) and envelope construction ------------------- *)
